@@ -196,7 +196,7 @@ func (s *Solver) readResp(deadline time.Duration) (string, bool) {
 func (s *Solver) Check() string {
 	t0 := time.Now()
 	s.raw("(check-sat)")
-	resp, ok := s.readResp(time.Duration(s.TimeoutMs)*time.Millisecond + 8*time.Second)
+	resp, ok := s.readResp(time.Duration(s.TimeoutMs)*time.Millisecond + 2500*time.Millisecond)
 	s.Stats.Nanos += int64(time.Since(t0))
 	s.Stats.Queries++
 	if !ok {
